@@ -391,7 +391,14 @@ pub fn strategy() -> BoxedStrategy<Case> {
         prop::bool::weighted(0.04),
     )
         .prop_map(|(tape, n_input, pick, process, cli)| {
-            let (prog, _) = typed::program(&mut Tape::new(&tape), 5, 5, true);
+            let mut tp = Tape::new(&tape);
+            let (mut prog, _) = typed::program(&mut tp, 5, 5, true);
+            // now and then a statement about function naming (factory-made recursive functions,
+            // parameters that carry the function's own name)
+            if pick % 5 == 0 {
+                let e = typed::naming_expressions(&mut tp);
+                prog.push(E::Assign(format!("zn{}", prog.len()), Box::new(e)));
+            }
             Case { prog, n_input, pick, process, cli }
         })
         .boxed()
